@@ -427,7 +427,7 @@ def expectedSkeletons : List (String × List String) := [
   ("Parser.check_errors", ["0:if:Cmp(self.error_level,Eq,ErrorLevel.WARN)", "1:for:self.errors", "2:call:logger.error(Call(str)(error))", "0:else", "1:if:And(Cmp(self.error_level,Eq,ErrorLevel.RAISE),self.errors)", "2:raise:Call(ParseError)(Call(concat_messages)(self.errors,self.max_errors),errors=Call(merge_errors)(self.errors))"]),
   ("concat_messages", ["0:set:msg=ListComp(Call(str)(e) for Sub(errors,Slice(?:maximum)))", "0:set:remaining=Sub(Call(len)(errors),maximum)", "0:if:Cmp(remaining,Gt,0)", "1:call:msg.append(JoinedStr)", "0:return:Call(<expr>.join)(msg)"]),
   ("Generator.unsupported", ["0:if:Cmp(self.unsupported_level,Eq,ErrorLevel.IMMEDIATE)", "1:raise:Call(UnsupportedError)(message)", "0:call:<expr>.append(message)"]),
-  ("Generator.generate", ["0:if", "0:set:self.unsupported_messages=[]", "0:set:sql=Call(<expr>.strip)", "0:if", "1:set:sql=Call(sql.replace)(self.SENTINEL_LINE_BREAK,'\\n')", "0:if:Cmp(self.unsupported_level,Eq,ErrorLevel.IGNORE)", "1:return:sql", "0:if:Cmp(self.unsupported_level,Eq,ErrorLevel.WARN)", "1:for:self.unsupported_messages", "2:call:logger.warning(msg)", "0:else", "1:if:And(Cmp(self.unsupported_level,Eq,ErrorLevel.RAISE),self.unsupported_messages)", "2:raise:Call(UnsupportedError)(Call(concat_messages)(self.unsupported_messages,self.max_unsupported))", "0:return:sql"])
+  ("Generator.generate", ["0:if", "0:set:self.unsupported_messages=[]", "0:if", "0:if:Cmp(self.unsupported_level,Eq,ErrorLevel.IGNORE)", "1:return:sql", "0:if:Cmp(self.unsupported_level,Eq,ErrorLevel.WARN)", "1:for:self.unsupported_messages", "2:call:logger.warning(msg)", "0:else", "1:if:And(Cmp(self.unsupported_level,Eq,ErrorLevel.RAISE),self.unsupported_messages)", "2:raise:Call(UnsupportedError)(Call(concat_messages)(self.unsupported_messages,self.max_unsupported))", "0:return:sql"])
 ]
 
 /-! ### direct raises and nested parsers (audited allow-lists, compared with Generated/C14.lean by `decide`) -/
